@@ -17,7 +17,20 @@ import (
 	"time"
 )
 
-const verifDir = "/verif"
+// verifDir is the root of the verification framework: $VERIF_DIR, else two levels above the binary
+// (<root>/.cache/bin/engine), else /verif
+var verifDir = func() string {
+	if d := os.Getenv("VERIF_DIR"); d != "" {
+		return d
+	}
+	if exe, err := os.Executable(); err == nil {
+		d := filepath.Dir(filepath.Dir(filepath.Dir(exe)))
+		if _, err := os.Stat(filepath.Join(d, "MANIFEST.json")); err == nil {
+			return d
+		}
+	}
+	return "/verif"
+}()
 
 // Unit is one independently runnable piece of a check (one worker process runs one unit)
 type Unit struct {
